@@ -81,7 +81,9 @@ def _judge(op, ref, outcome, res, sub, agg):
     elif outcome == "IncompatibleArgsError":
         agg["outcomes"]["rejected"] += 1
         if ref is not None:
-            agg["violations"].append({"sub": sub, "what": "%s rejected a meaningful request (every primitive succeeds): %s" % (op, str(res)[:120])})
+            # not a violation of the property as stated (it prescribes the interface of RETURNED contracts and the rejection of
+            # meaningless requests); counted so that a loss of completeness is visible in the evidence
+            agg["extra"]["meaningful-request-rejected"] += 1
     else:
         agg["outcomes"][outcome] += 1
         agg["violations"].append({"sub": sub, "what": "%s ended with %s instead of a contract or IncompatibleArgsError" % (op, outcome)})
@@ -175,8 +177,7 @@ def _one(case):
                         out.append(("rename:modified-operand", True, None, {"sub": sub, "what": "rename_variable modified the contract it was called on"}))
                         c = SA.mk_contract(spec)
                 except IncompatibleArgsError:
-                    out.append(("rename:rejected", True, None, None if ref is None else
-                                {"sub": sub, "what": "rename rejected although the result is a well-formed contract"}))
+                    out.append(("rename:rejected", True, None, None, None if ref is None else {"meaningful-request-rejected": 1}))
                     continue
                 except Exception as e:  # noqa
                     out.append(("escaped:" + type(e).__name__, False, None, {"sub": sub, "what": "rename raised %s" % type(e).__name__}))
@@ -188,7 +189,7 @@ def _one(case):
                     viol = {"sub": sub, "what": "ill-formed rename result: " + "; ".join(wf)}
                 elif ref is None:
                     viol = {"sub": sub, "what": "rename made a variable both input and output without raising"}
-                elif got != (ref[0], ref[1]):
+                elif (set(got[0]), set(got[1])) != (set(ref[0]), set(ref[1])):
                     viol = {"sub": sub, "what": "rename interface %s, prescribed %s" % (got, ref)}
                 else:
                     # every atom's variable set follows the substitution
